@@ -3,6 +3,7 @@ import CovfieModel.Model.LinRef
 import CovfieModel.Model.RImpRef
 import CovfieModel.Model.OwnScript
 import CovfieModel.Model.IOScript
+import CovfieModel.Model.BinScript
 /-! Driver for the translated kernels (DESIGN.md §11.6).
   print                         -> one line `K <name> <s-expression>` per reference kernel (the terms the theorems are about)
   ref <name> | prog <sexp>      -> selects the program the following `run` lines execute
@@ -20,7 +21,8 @@ def step (cur : Option Stmt) (line : String) : Option Stmt × List String :=
       Covfie.Lin.Ref.all.map (fun (n, p) => s!"K {n} {p.toSexp}") ++
       Covfie.RImp.Ref.all.map (fun (n, p) => s!"K {n} {p.toSexp}") ++
       Covfie.Heap.Ref.all.map (fun (n, t) => s!"K {n} {t}") ++
-      Covfie.IO.Ref.all.map (fun (n, p) => s!"K {n} {p.toSexp}"))
+      Covfie.IO.Ref.all.map (fun (n, p) => s!"K {n} {p.toSexp}") ++
+      Covfie.IO.BRef.all.map (fun (n, t) => s!"K {n} {t}"))
   | ["ref", n] =>
     match Ref.all.find? (·.1 = n) with
     | some (_, p) => (some p, ["prog-ok"])
